@@ -97,6 +97,7 @@ structure EpInv (e : Ep) : Prop where
   frame : FrameInv e
   emit : EmitInv e
   okProc : ∀ m ∈ e.processed, okMsg m
+  kc : KC e
 
 /-- a local (non-read) event preserves every endpoint invariant -/
 theorem epInv_local (e : Ep) (ev : Ev) (hi : EpInv e) (hne : ∀ c, ev ≠ .rx c)
@@ -111,7 +112,8 @@ theorem epInv_local (e : Ep) (ev : Ev) (hi : EpInv e) (hne : ∀ c, ev ≠ .rx c
     rw [this]; rfl
   have hok : ∀ m ∈ (step e ev).1.processed, okMsg m := by rw [hproc]; exact hi.okProc
   exact ⟨txInv_step e ev P hP hi.timer hsend hleg hok, timerInv_step e ev hi.timer, rxInv_step e ev hi.rx,
-    pumpInv_step e ev hi.pump, frameInv_step e ev hi.frame, emitInv_step e ev hi.emit, hok⟩
+    pumpInv_step e ev hi.pump, frameInv_step e ev hi.frame,
+    emitInv_step e ev hi.emit (fun h => hi.kc (hi.timer.1 h)), hok, kc_step e ev hi.kc⟩
 
 /-- a read preserves every endpoint invariant provided what will have been processed is a prefix
     of a legal, acceptable message sequence (the peer's guarantee) -/
@@ -122,7 +124,8 @@ theorem epInv_rx (e : Ep) (c : Bytes) (M : List Msg) (hi : EpInv e)
   have hleg := legal_of_prefix hpre hM
   have hok : ∀ m ∈ (step e (.rx c)).1.processed, okMsg m := fun m hm => hokM m (hpre.subset hm)
   exact ⟨txInv_step e _ P hP hi.timer (by intro d h; cases h) hleg hok, timerInv_step e _ hi.timer,
-    rxInv_step e _ hi.rx, pumpInv_step e _ hi.pump, frameInv_step e _ hi.frame, emitInv_step e _ hi.emit, hok⟩
+    rxInv_step e _ hi.rx, pumpInv_step e _ hi.pump, frameInv_step e _ hi.frame,
+    emitInv_step e _ hi.emit (fun h => hi.kc (hi.timer.1 h)), hok, kc_step e _ hi.kc⟩
 
 theorem rxBytes_step_rx (e : Ep) (c : Bytes) (hc : e.closed = false) :
     (step e (.rx c)).1.rxBytes = e.rxBytes ++ c := by
@@ -319,8 +322,8 @@ theorem epInv_started (cfg : Cfg) (h1 : 0 < cfg.segInit) (h2 : cfg.privExt = fal
     have := congrArg RxView.processed (rxView_step_nonrx { cfg := cfg } .start hne)
     simpa [Ep.rxView] using this
   exact ⟨⟨{}, txInv_started cfg h1 h2⟩, timerInv_started cfg, rxInv_started cfg, pumpInv_started cfg,
-    frameInv_step _ _ (frameInv_init cfg), emitInv_step _ _ (emitInv_init cfg),
-    by rw [hproc]; intro m hm; simp at hm⟩
+    frameInv_step _ _ (frameInv_init cfg), emitInv_step _ _ (emitInv_init cfg) (by intro h; cases h),
+    by rw [hproc]; intro m hm; simp at hm, kc_step _ _ (kc_init cfg)⟩
 
 theorem sysInv_init (cfgA cfgB : Cfg) (a1 : 0 < cfgA.segInit) (a2 : cfgA.privExt = false)
     (a3 : 0 < cfgA.segMru) (b1 : 0 < cfgB.segInit) (b2 : cfgB.privExt = false) (b3 : 0 < cfgB.segMru) :
